@@ -75,3 +75,8 @@ impl FreeListSim {
 }
 
 pub use crate::bitbox::verif::{allocate_bucket, hash_raw_page_id, probe_results};
+
+// The bitbox write-ahead log (`WalBlobBuilder`, `WalBlobReader`, the redo loop of `recover` through
+// `DB::open`) and the page diff.
+pub use crate::bitbox::verif::{open_and_recover, wal_read, PlainWalEntry, WalSim};
+pub use crate::page_diff::PageDiff;
